@@ -41,20 +41,22 @@ class FakePdf:
 
 def execute(ob):
     cards.silence()
-    from yadism.esf.result import ESFResult
+    from yadism.esf.result import ESFResult, EXSResult
     from yadism.output import Output
 
-    line = dict(oid=ob["oid"], kind="pred", pto=ob["pto"], v=ob["v"], keys=ob["keys"], op=ob["op"], has=ob["has"], aem=ob["aem"],
+    xs = ob.get("cls") == "XS"
+    oname = "XSHERANC_total" if xs else "F2_total"
+    line = dict(oid=ob["oid"], kind="pred", cls=ob.get("cls", "SF"), pto=ob["pto"], v=ob["v"], keys=ob["keys"], op=ob["op"], has=ob["has"], aem=ob["aem"],
                 pdf=ob["pdf"], **{"as": ob["as"]}, outcome="OK", scales_ok=True, read_missing=False, observed=[], observed_err=[], raw=[])
     out = Output()
     out.update(dict(xgrid=dict(grid=list(GRID), log=True), polynomial_degree=1, is_log=True))
     out["pids"] = list(PIDS)
     out["projectilePID"] = 11
-    r = ESFResult(0.3, Q2, None)
+    r = EXSResult(0.3, Q2, 0.7, None) if xs else ESFResult(0.3, Q2, None)
     for key, opk in zip(ob["keys"], ob["op"]):
         v = np.array(opk, dtype=float)
         r.orders[tuple(key)] = (v, 2.0 * v)
-    out["F2_total"] = [r]
+    out[oname] = [r]
     state = dict(scales_ok=True, read_missing=False)
     try:
         for lr in range(3):
@@ -73,7 +75,9 @@ def execute(ob):
                         state["scales_ok"] = False
                     return aem
                 pdf = FakePdf(ob["pdf"][lf], ob["has"], XI[lf], state)
-                p = out.apply_pdf_alphas_alphaqed_xir_xif(pdf, alpha_s, alpha_qed, XI[lr], XI[lf])["F2_total"][0]
+                p = out.apply_pdf_alphas_alphaqed_xir_xif(pdf, alpha_s, alpha_qed, XI[lr], XI[lf])[oname][0]
+                if xs and p.get("y") != 0.7:
+                    line["outcome"] = "Crash_LostY"
                 e = common.frac(ob["expect"][lr][lf])
                 row.append(common.snap(float(p["result"]), e, rel=1e-11, abs_=1e-12))
                 rowe.append(common.snap(float(p["error"]), 2 * e, rel=1e-11, abs_=1e-12))
@@ -161,8 +165,10 @@ def run(ctx):
     obls = ctx.tlc_emit("Emit_C17", common.cfg_text(dict(PTOS={0, 1, 2, 3}, VARIANTS={1, 2, 3} if q else {1, 2, 3, 4, 5, 6, 7, 8, 9}), spec=None),
                         env=dict(OUT2=str(out2)))
     alph = [o for o in common.read_ndjson(out2) if o["valid"]]
+    # every obligation on a structure-function result and on a cross-section result (EXSResult: the same contraction, plus y)
+    obls = [dict(o, cls=c) for o in obls for c in ("SF", "XS")]
     for o in obls:
-        o["oid"] = common.oid_of("C17", dict(pto=o["pto"], v=o["v"]))
+        o["oid"] = common.oid_of("C17", dict(pto=o["pto"], v=o["v"], cls=o["cls"]))
     for o in alph:
         o["oid"] = common.oid_of("C17", {k: o[k] for k in ("fns", "nfff", "m", "k")})
     lines = ctx.pmap(execute, obls, chunksize=2) + ctx.pmap(execute_alpha, alph, chunksize=4)
@@ -182,8 +188,8 @@ def run(ctx):
     for oid, clause in bad.items():
         ln = by[oid]
         if ln["kind"] == "pred":
-            key = f"pred:pto{ln['pto']}:v{ln['v']}:{clause}"
-            what = f"apply_pdf on integer operators (keys up to pto {ln['pto']}, variant {ln['v']}): {clause}"
+            key = f"pred:{ln['cls']}:pto{ln['pto']}:v{ln['v']}:{clause}"
+            what = f"apply_pdf on integer operators ({ln['cls']} result, keys up to pto {ln['pto']}, variant {ln['v']}): {clause}"
         else:
             key = f"alphas:{ln['fns']}{ln['nfff']}:m{ln['m']}:k{ln['k']}:{clause}"
             what = f"apply_pdf_theory coupling for {ln['fns']} NfFF={ln['nfff']} k={ln['k']}: {clause} {ln['note']}"
